@@ -60,7 +60,10 @@ def pick_scene(seed, k):
     rng = random.Random(f'{seed}:c09:{k}')
     if k % 40 == 7:
         return big_scene(rng)
-    fam = rng.choice(['split', 'split', 'synth', 'chain', 'multi', 'bundle', 'degenerate'])
+    if k % 8 == 3:
+        # quantised decks whose seeded mixture fit leaves a component empty (corpus of pipecheck.EMPTYCOMP_KS)
+        return pipecheck.gen_scene(seed, k, 'emptycomp')
+    fam = rng.choice(['split', 'split', 'synth', 'chain', 'multi', 'bundle', 'degenerate', 'splitq', 'splitq', 'splitq'])
     return pipecheck.gen_scene(seed, k, fam)
 
 
